@@ -35,6 +35,7 @@ type ActorCfg struct {
 	Parent      string   `json:"parent"`
 	Kids        []string `json:"kids"`
 	MaxRestarts int      `json:"maxRestarts"`
+	RespawnKids bool     `json:"respawnKids"` // every incarnation's Started handler calls SpawnChild for its children again
 	Succ        string   `json:"succ"` // spawned under this actor's id from inside its final Stopped handler
 }
 
@@ -166,6 +167,8 @@ type harness struct {
 	arrive    chan *arrival
 	mu        sync.Mutex
 	onSpret   func(string)
+	dupKids   int // SpawnChild calls that found the child registered / gone
+	reKids    int
 	free      int             // > 0: free-running pass (no gates, environment actions back to back)
 	crashAt   map[Gate]string // free-running: the deliveries the behaviour lets fail
 	log       []Entry
@@ -349,8 +352,17 @@ func (r *rec) Receive(c *actor.Context) {
 			h.mu.Lock()
 			ever := h.incs[k] > 0
 			h.mu.Unlock()
-			if ever {
+			if ever && !h.cfg.Actors[r.name].RespawnKids {
 				continue // each child is spawned once, by the first incarnation that reaches Started
+			}
+			if ever {
+				h.mu.Lock()
+				if h.registered(k) {
+					h.dupKids++
+				} else {
+					h.reKids++
+				}
+				h.mu.Unlock()
 			}
 			c.SpawnChild(h.producer(k), "k", h.opts(k)...)
 		}
@@ -875,6 +887,10 @@ func runScenario(cfg Config, sc Scenario, free int) *Result {
 		res.Reg[n] = h.registered(n)
 	}
 	res.Spret = spretList()
+	h.mu.Lock()
+	res.DupSpawns += h.dupKids
+	res.Respawns += h.reKids
+	h.mu.Unlock()
 	res.Producers = map[string]int{}
 	h.mu.Lock()
 	for n := range cfg.Actors {
